@@ -41,6 +41,9 @@ CFGS = {
     # C16: every output enabled (HLS, HTTP-TS, FLV + TS recording, hook), inputs of every kind, shutdown
     "F1": dict(RtmpPubs=["p1", "p2"], RtspPubs=[], CustPubs=["k1"], PsPubs=["g1"], RtmpSubs=["s1"], FlvSubs=[],
                PullRetry=0, PullAuto=-1, PullEnabled=False, Outputs=True, Shutdown=True),
+    # shutdown while a relay pull is the input (or an attempt is in flight): its connection is one of the server's sessions
+    "F2": dict(RtmpPubs=["p1"], RtspPubs=[], CustPubs=[], PsPubs=[], RtmpSubs=["s1"], FlvSubs=[],
+               PullRetry=1, PullAuto=-1, PullEnabled=True, Outputs=True, Shutdown=True),
     # HTTP-TS subscribers next to the others (stat listing, notifications, kick, group liveness)
     "L3": dict(RtmpPubs=["p1", "p2"], RtspPubs=[], CustPubs=["k1"], PsPubs=[], RtmpSubs=["s1"], FlvSubs=[], TsSubs=["h1", "h2"],
                PullRetry=0, PullAuto=-1, PullEnabled=False),
